@@ -74,6 +74,7 @@ type microCtx struct {
 	conns    []*WConn
 	held     int64 // messages the stats account for at the idle point after the window (-1: n/a)
 	oldCh    *Channel // the channel object of the first daemon lifetime (C05 post-mortem)
+	flushWatch *FlushWatch
 }
 
 // bad records a violation; clause starts with the ids of the properties it belongs to.
@@ -275,6 +276,7 @@ var microOps = map[string]func(x *microCtx) string{
 		return "closed"
 	},
 	"exit": func(x *microCtx) string {
+		x.flushWatch = WatchFlush(x.w.N)
 		x.w.N.Exit()
 		x.w.exited = true
 		x.exited = true
@@ -1062,6 +1064,15 @@ func (x *microCtx) afterRestart() {
 	}
 	x.w = w2
 	x.afterRst = map[string][]int{}
+	// the topic and the channel existed (non-ephemeral) before the shutdown was requested and
+	// nothing deleted them: they exist again, before any consumer re-creates them
+	if !x.spec.Eph && !x.deleted && !x.tdeleted {
+		if w2.Topic(x.topic) == nil {
+			x.bad("C05 topic missing after restart", "topic %s existed when shutdown was requested; after the restart nsqd has topics %v", x.topic, topicNamesOf(w2))
+		} else if w2.Channel(x.topic, x.ch) == nil {
+			x.bad("C05 channels differ after restart", "channel %s of topic %s existed when shutdown was requested; after the restart the topic has channels %v", x.ch, x.topic, chanNamesOf(w2, x.topic))
+		}
+	}
 	w2.Do("POST", "/topic/unpause?topic="+x.topic, nil)
 	w2.Do("POST", "/channel/unpause?topic="+x.topic+"&channel="+x.ch, nil)
 	d := w2.Dial("drain")
@@ -1086,11 +1097,14 @@ func (x *microCtx) afterRestart() {
 	// consumer's messagePump does (StartInFlightTimeout after it took the message off the
 	// queue before the flush): the window nsqd's own comments acknowledge.
 	pumpHeld := map[string]bool{}
+	pumpSends := 0 // sends by consumer pumps after the flush had started: each explains one loss
 	vrt.Quiesce() // (consumer pumps are told to stop, not waited for: let them finish)
-	if x.oldCh != nil {
-		for _, m := range x.oldCh.inFlightMessages {
-			pumpHeld[string(m.Body)] = true
-		}
+	if x.flushWatch != nil {
+		x.flushWatch.Stop()
+		// registered in flight after Channel.flush had started writing: only a consumer's
+		// messagePump does that
+		pumpHeld = x.flushWatch.RegisteredAfterFlush(x.topic, x.ch)
+		pumpSends = x.flushWatch.SendsAfterFlush(x.topic, x.ch)
 	}
 	for _, body := range []string{"m1", "m2"} {
 		if x.spec.State == "none" {
@@ -1101,6 +1115,19 @@ func (x *microCtx) afterRestart() {
 			continue // a FIN overlapping the shutdown may go either way
 		}
 		if len(got) == 0 {
+			if pumpHeld[body] && body == "m1" && hasOpIn(x.spec.Ops, "touch1") {
+				if _, touched := x.touchOK[x.m1]; touched {
+					// TouchMessage takes the message out of the in-flight table and puts it back
+					// in a second step; a flush in between does not see it
+					x.bad("C05 message being touched lost by a graceful shutdown", "%s (attempts before the shutdown: %d) was being TOUCHed while Exit was flushing the channel (out of the in-flight table when the flush passed, back in afterwards) and was not delivered after the restart; delivered: %v", body, before[body], x.afterRst)
+					continue
+				}
+			}
+			if !pumpHeld[body] && pumpSends > 0 {
+				// a pump read the message back from the backend the flush had just written
+				pumpSends--
+				pumpHeld[body] = true
+			}
 			if pumpHeld[body] {
 				x.bad("C05 message in the hands of a delivery pump lost by a graceful shutdown", "%s (attempts before the shutdown: %d) was not delivered after the restart: a consumer's pump had taken it off the queue before Exit flushed the channel and registered it in flight afterwards; delivered: %v", body, before[body], x.afterRst)
 				continue
@@ -1118,6 +1145,17 @@ func (x *microCtx) afterRestart() {
 			x.bad("C05 attempts count did not continue across the restart", "%s: attempts %d before the shutdown, %d on the first delivery after the restart", body, before[body], got[0])
 		}
 	}
+}
+
+func topicNamesOf(w *World) []string {
+	var out []string
+	w.N.RLock()
+	for n := range w.N.topicMap {
+		out = append(out, n)
+	}
+	w.N.RUnlock()
+	sort.Strings(out)
+	return out
 }
 
 func hasOpIn(ops []string, op string) bool {
